@@ -4,14 +4,14 @@ MERKLE_OVERLAYS = [
 ]
 HASH_STUB = "crypto::hash::hash_all"
 
-def _sound(kind, m, k, tiers):
+def _sound(kind, m, k, tiers, quick_to=420):
     fn = "check_proof_last" if kind == "l" else "check_proof"
     return {
         "name": f"c15_sound_{kind}_m{m}_k{k}", "path": MOD, "tiers": tiers, "role": f"soundness/{fn}",
         "functions": [f"MerkleTree::{fn}", "MerkleTree::check_hash_proof" + ("_last" if kind == "l" else ""), "MerkleTree::derive_hash_root" + ("_last" if kind == "l" else ""), "MerkleTree::hash_leaf", "MerkleTree::hash_pair"],
         "bounds": f"DoubleMerkleTree; honest tree of {m} symbolic 32-byte leaves; proof of exactly {k} elements, each any honest node / empty-subtree constant / raw value; candidate leaf any honest leaf or raw 32 bytes; index any 64-bit usize",
         "stubs": [HASH_STUB], "covers": 2 if k == (m - 1).bit_length() else 1,
-        "timeout": {"quick": 420, "thorough": 1500},
+        "timeout": {"quick": quick_to, "thorough": 1500},
     }
 
 def _complete(m, tiers):
@@ -47,7 +47,7 @@ SPEC = {
         _sound("d", 3, 1, T), _sound("d", 3, 2, Q), _sound("d", 3, 3, T), _sound("d", 4, 2, T), _sound("d", 5, 2, T),
         _sound("d", 5, 3, T), _sound("d", 8, 3, T), _sound("d", 8, 4, T),
         _sound("l", 1, 0, Q), _sound("l", 1, 1, T), _sound("l", 2, 1, Q), _sound("l", 2, 2, T), _sound("l", 3, 1, T),
-        _sound("l", 3, 2, Q), _sound("l", 3, 3, T), _sound("l", 4, 2, T), _sound("l", 5, 3, T), _sound("l", 6, 3, T), _sound("l", 7, 3, T), _sound("l", 8, 3, T),
+        _sound("l", 3, 2, Q), _sound("l", 3, 3, T), _sound("l", 4, 2, T), _sound("l", 5, 3, T), _sound("l", 6, 3, Q, quick_to=1500), _sound("l", 7, 3, T), _sound("l", 8, 3, T),
         _sound("d", 6, 3, T), _sound("d", 7, 3, T),
         _complete(1, T), _complete(2, Q), _complete(3, T), _complete(4, T), _complete(5, T),
     ],
